@@ -51,7 +51,9 @@ def nontrivial(case, model):
 
 
 def finding_key(case, impl, model):
-    return "c07-" + ("-".join(sorted(set(t[0] for t in g.main_part(impl).replace("|", " ").split() if t))) or "empty")
+    # class of a violation = which of the proved predicates is false on the implementation's trace
+    m = _mon.get("m")
+    return "c07:" + (m.verdict(case, g.main_part(impl)) if m else "?")
 
 
 def streams(ctx):
